@@ -115,7 +115,7 @@ class RepSpec(netx.Spec):
     def check_state(self, world, event, report):
         if world.exception is not None:
             ev, et, msg, where = world.exception
-            report(f"C25|raised|{et}|{where[-1]}", f"deployment {self.dep['name']}: event {ev} raised {et}: {msg} at {where}")
+            report(f"C25|raised|{et}|{netx.site(where)}", f"deployment {self.dep['name']}: event {ev} raised {et}: {msg} at {where}")
             return
         if self.phase != "run":
             return
